@@ -94,6 +94,12 @@ def f_gkey(m):
     return lambda x: GKEYS[x % m]
 
 
+def as_arg(ops, node):
+    """A pipeline argument may be given as a list of operators or as one composed operator (rx.pipe): alternate
+    deterministically between the two documented forms."""
+    return list(ops) if len(repr(node)) % 2 == 0 else rx.pipe(*ops)
+
+
 def twice(make):
     """Construct an operator twice from the same arguments (the first result is thrown away): a constructor that mutates
     the pipeline list it is given, or keeps state between constructions, shows in the second one."""
@@ -386,7 +392,7 @@ class _GroupBy(_Container):
         return demono(t) if t else None
 
     def build(self, n, e):
-        inner = build_pipeline(n[2], e)
+        inner = as_arg(build_pipeline(n[2], e), n)
         return twice(lambda: rs.ops.group_by(f_gkey(n[1]), inner))
 
     def model(self, n, c):
@@ -400,7 +406,7 @@ class _Roll(_Container):
         return demono(t) if t else None
 
     def build(self, n, e):
-        inner = build_pipeline(n[3], e)
+        inner = as_arg(build_pipeline(n[3], e), n)
         return twice(lambda: rs.data.roll(n[1], n[2], inner))
 
     def model(self, n, c):
@@ -416,7 +422,7 @@ class _Split(_Container):
         return demono(t) if t else None
 
     def build(self, n, e):
-        inner = build_pipeline(n[3], e)
+        inner = as_arg(build_pipeline(n[3], e), n)
         return twice(lambda: rs.data.split(splitf(n[1], n[2]), inner))
 
     def model(self, n, c):
@@ -433,7 +439,7 @@ class _TimeSplit(_Container):
         return demono(t) if t else None
 
     def build(self, n, e):
-        inner = build_pipeline(n[5], e)
+        inner = as_arg(build_pipeline(n[5], e), n)
         rs.data.time_split(time_mapper=to_dt, active_timeout=to_td(7), inactive_timeout=None, pipeline=inner)    # see twice()
         return rs.data.time_split(
             time_mapper=to_dt, active_timeout=to_td(n[1]), inactive_timeout=to_td(n[2]),
@@ -471,7 +477,7 @@ class _Tee(Kind):
         return any(pipeline_ct(b) for b in node[2])
 
     def build(self, n, e):
-        branches = [build_pipeline(b, e) if b else rs.ops.identity() for b in n[2]]
+        branches = [(as_arg(build_pipeline(b, e), b) if b else rs.ops.identity()) for b in n[2]]
         return twice(lambda: rs.ops.tee_map(*branches, join=n[1]))
 
     def model(self, n, c):
